@@ -187,6 +187,7 @@ func main() {
 	defer os.RemoveAll(tmp)
 	sf := filepath.Join(tmp, "main.go")
 	os.WriteFile(sf, []byte(src), 0o644)
+	keepStandin("c01_1", src)
 	virt := filepath.Join(opts.Repo, "internal", "zz_verif_c01bounded", "main.go")
 	ov, _ := json.Marshal(map[string]any{"Replace": map[string]string{virt: sf}})
 	ovf := filepath.Join(tmp, "ov.json")
